@@ -475,6 +475,63 @@ where for<'a> Sat9<'a>: Satisfier<Pk>
     }
 }
 
+/// R1, compiler route: the policy compiler builds its nodes with `from_components_unchecked` and
+/// its own cast table (`ExtData::cast_*`), i.e. the stored figures of a COMPILED object come from
+/// code no other route runs.  Every compiled miniscript is compared with the model (`C extvia
+/// compile`, the model computes the figures of the same tree) and judged as an object on the
+/// satisfactions it produces (`J bound compiled:…`, all-but-one asset subsets, both modes).
+fn compile_route<Pk: HKey9 + crate::c10b::Atom, Ctx: ScriptContext>(out: &mut Out, ctx: CtxK)
+where for<'a> Sat9<'a>: Satisfier<Pk>
+{
+    use miniscript::bitcoin::hashes::Hash as _;
+    use miniscript::policy::Concrete as C;
+    use std::sync::Arc;
+    let base = if ctx == CtxK::Tap { 200 } else { 0 };
+    let k = |i: u32| Arc::new(C::<Pk>::Key(Pk::of(base + i)));
+    let older = |n: u32| Arc::new(C::<Pk>::Older(miniscript::RelLockTime::from_consensus(n).unwrap()));
+    let after = |n: u32| Arc::new(C::<Pk>::After(miniscript::AbsLockTime::from_consensus(n).unwrap()));
+    let sha = |i: u32| Arc::new(C::<Pk>::Sha256(miniscript::bitcoin::hashes::sha256::Hash::from_slice(&ast::hash_value(ast::HK::Sha256, i)).unwrap()));
+    let and = |a: Arc<C<Pk>>, b: Arc<C<Pk>>| Arc::new(C::And(vec![a, b]));
+    let or = |wa: usize, a: Arc<C<Pk>>, wb: usize, b: Arc<C<Pk>>| Arc::new(C::Or(vec![(wa, a), (wb, b)]));
+    let thr = |kk: usize, v: Vec<Arc<C<Pk>>>| Arc::new(C::Thresh(miniscript::Threshold::new(kk, v).unwrap()));
+    let pols: Vec<Arc<C<Pk>>> = vec![
+        // thresholds with lock / hash children: s:n:l: / s:l:n: / a:… casts
+        thr(2, vec![k(0), k(1), older(10)]), thr(2, vec![k(0), k(1), after(100)]), thr(1, vec![k(0), older(10)]),
+        thr(2, vec![k(0), k(1), k(2), older(10)]), thr(3, vec![k(0), k(1), older(10), after(100)]), thr(2, vec![k(0), older(10), sha(0)]),
+        thr(2, vec![k(0), and(k(1), older(10)), sha(0)]), thr(2, vec![k(0), or(1, k(1), 1, older(10)), k(2)]),
+        // disjunctions at every odds: or_d / or_i / or_b / andor with u: l: t: casts
+        or(1, k(0), 1, older(10)), or(9, k(0), 1, older(10)), or(1, k(0), 9, older(10)), or(1, k(0), 1, and(k(1), older(10))),
+        or(9, k(0), 1, and(k(1), after(100))), or(1, k(0), 9, and(k(1), after(100))), or(1, and(k(0), older(10)), 1, and(k(1), sha(0))),
+        or(1, k(0), 1, or(1, and(k(1), sha(0)), 1, and(k(2), older(10)))), or(1, sha(0), 1, k(0)), or(1, and(k(0), sha(0)), 9, k(1)),
+        and(k(0), or(1, k(1), 1, older(10))), and(k(0), or(9, k(1), 1, sha(0))), and(k(0), or(1, k(1), 9, after(100))),
+        and(or(1, k(0), 1, k(1)), or(1, k(2), 1, older(10))), and(k(0), and(k(1), older(10))), and(older(10), k(0)), and(sha(0), k(0)),
+        and(or(1, k(0), 1, older(10)), or(1, k(1), 1, after(100))), or(1, thr(2, vec![k(0), k(1), k(2)]), 1, and(k(3), older(10))),
+    ];
+    for (i, pol) in pols.iter().enumerate() {
+        let ms: Miniscript<Pk, Ctx> = match std::panic::catch_unwind(std::panic::AssertUnwindSafe(|| pol.compile::<Ctx>())) {
+            Ok(Ok(m)) => m,
+            Ok(Err(_)) => { out.count(&format!("compile route: no compilation in {}", ctx.name())); continue }
+            Err(_) => { out.count("observation: compiler panicked (compile route)"); continue }
+        };
+        let node = match crate::c10b::from_ms(&ms) { Some(n) => n, None => { out.count("compile route: atoms outside the table"); continue } };
+        let w = node.wire();
+        out.count(&format!("compile route: compiled {}", ctx.name()));
+        let on = |x: Option<usize>| x.map(|v| v.to_string()).unwrap_or("none".into());
+        out.line(&format!("C extvia compile {} {}", ctx.name(), w), &format!("{} {} {} {}", msops::show_ext(&ms.ext), ms.script_size(),
+            on(ms.max_satisfaction_size().ok()), on(ms.max_satisfaction_witness_elements().ok())));
+        // the compiled OBJECT judged on its own satisfactions: full assets, each key / preimage / lock
+        // removed in turn (forces the dissatisfaction of every cast on some path), both modes
+        let full = Assets::full(&node);
+        let mut sets = vec![full.clone()];
+        for x in full.ecdsa.iter() { let mut a = full.clone(); a.ecdsa.remove(x); sets.push(a); }
+        for x in full.schnorr.keys() { let mut a = full.clone(); a.schnorr.remove(x); sets.push(a); }
+        for x in full.pre.iter() { let mut a = full.clone(); a.pre.remove(x); sets.push(a); }
+        { let mut a = full.clone(); a.older.clear(); a.after.clear(); sets.push(a); }
+        let label = format!("compiled:{}:{}", i, w);
+        for a in &sets { for mall in [false, true] { emit_bound_ms::<Pk, Ctx>(out, ctx, &label, &ms, a, mall, ctx != CtxK::Tap); } }
+    }
+}
+
 /// `ast::to_ms` with the leaves built by the library's public leaf constructors
 fn to_ms_ctor<Pk: HKey9, Ctx: ScriptContext>(n: &Node) -> Option<Miniscript<Pk, Ctx>> {
     use miniscript::{AbsLockTime, RelLockTime, Terminal, Threshold};
@@ -1364,6 +1421,8 @@ pub fn run(out: &mut Out, thorough: bool, seed: u64) {
             desc_pool.push((ctx, node, 1));
         }
     }
+    // ---- R1: compiler-built objects (their figures come from the compiler's own cast table) ---------
+    for ctx in CtxK::ALL { with_ctx9!(ctx, compile_route(out, ctx)); }
     // ---- R2: refused today; judged like everything else the day the library accepts them --------
     for (ctx, sc) in refused_today() {
         let node = parse_node(sc);
